@@ -756,8 +756,15 @@ func findSequencesInList(paths []*fileItem, opts *findSeqOptions) (FileSequences
 			if !(strings.HasPrefix(item.FileName, baseName) && strings.HasSuffix(item.FileName, ext)) {
 				continue
 			}
+			// the basename and ext may not overlap
+			if len(item.FileName) < len(baseName)+len(ext) {
+				continue
+			}
 			frameStr = item.FileName[len(baseName) : len(item.FileName)-len(ext)]
-			_ = frameStr
+			// and there has to be a frame number between them
+			if _, err := strconv.Atoi(frameStr); err != nil || strings.HasPrefix(frameStr, "+") {
+				continue
+			}
 
 		} else {
 			// otherwise, we need to do some tests on the path and figure
